@@ -41,7 +41,13 @@ fn nudge(v: f32, k: i64) -> f32 {
 fn gen(rng: &mut Rng, kind: u64) -> [f32; 3] {
     let u = |rng: &mut Rng| rng.unit() as f32;
     match kind {
-        0 => [u(rng), u(rng), u(rng)],
+        0 => {
+            if rng.below(4) == 0 {
+                crate::gen::related_px(rng, 1.0)
+            } else {
+                [u(rng), u(rng), u(rng)]
+            }
+        }
         1 => {
             // force a channel order: pick three values, sort, assign by a permutation
             let mut v = [u(rng), u(rng), u(rng)];
